@@ -23,9 +23,15 @@ Definition repl_escape (found : str) : str :=
     else found
   | [] => found
   end.
+(* Tokenizer.tokenize._replstring: an escaped newline disappears *)
+Definition repl_string (found : str) : str :=
+  match tl found with
+  | c :: _ => if (c =? 10) || (c =? 13) || (c =? 12) then [] else repl_escape found
+  | [] => found
+  end.
 
 Definition unicodesub (s : str) : str := resub unicodesub_re repl_escape s.
-Definition cleanstring (s : str) : str := resub cleanstring_re (fun _ => []) s.
+Definition unicodesub_string (s : str) : str := resub unicodesub_re repl_string s.
 (* helper.normalize *)
 Definition normalize (s : str) : str := lower (resub simpleescapes_re (fun f => tl f) s).
 Definition normalize_u (s : str) : str := normalize (unicodesub s).
@@ -101,7 +107,7 @@ Fixpoint assoc_str (k : str) (l : list (str * tokty)) : option tokty :=
 (* name / found / value after the decoding branch *)
 Definition classify (name : tokty) (found s : str) : tokty * str * str :=
   if kind_in name decoding_kinds then
-    (name, found, unicodesub (if kind_in name cleaning_kinds then cleanstring found else found))
+    (name, found, if kind_in name cleaning_kinds then unicodesub_string found else unicodesub found)
   else if tokty_eqb name T_ATKEYWORD then
     match assoc_str (normalize_u found) atkeywords with
     | Some sym => (sym, found, found)
